@@ -10,6 +10,7 @@ package props
 // same contract was already revised by an earlier transaction of the block".
 
 import (
+	"math"
 	"fmt"
 	"math/rand"
 
@@ -22,7 +23,20 @@ import (
 func init() { fw.Register("C04L", runC04L) }
 
 func mutateStateElement(se *types.StateElement, rng *rand.Rand, other *types.StateElement) string {
-	switch k := rng.Intn(5); {
+	switch k := rng.Intn(8); {
+	case k == 5:
+		// the "not in the accumulator yet" sentinel on a record that claims to be in it
+		se.LeafIndex = types.UnassignedLeafIndex
+		if rng.Intn(2) == 0 {
+			se.MerkleProof = nil
+		}
+		return "sentinel-index"
+	case k == 6:
+		se.LeafIndex = []uint64{math.MaxUint64 - 1, 1 << 63, 1 << 40}[rng.Intn(3)]
+		return "extreme-index"
+	case k == 7 && len(se.MerkleProof) > 0:
+		se.MerkleProof = nil
+		return "proof-dropped"
 	case k == 0:
 		se.LeafIndex ^= 1 << uint(rng.Intn(6))
 		return "leaf-index"
